@@ -12,6 +12,7 @@ mod props3;
 mod props4;
 mod recog;
 mod refscreen;
+mod replay;
 mod report;
 mod seeds;
 mod snapshot;
@@ -187,6 +188,7 @@ fn main() {
             let tier = args.get(3).cloned().unwrap_or_else(|| "quick".to_string());
             run(&prop, &tier)
         }
+        Some("replay") => replay::replay(args.get(2).map(|s| s.as_str()).unwrap_or("")),
         _ => {
             out!("usage: mc run <Cxx> <quick|thorough> | mc replay <file>");
             2
